@@ -7,7 +7,7 @@ Regenerated on every run (`IceGen.T_Rewrite2`): `ruleMappingForLookup`, `address
 `addressRewriteMapper.shouldReplace` / `hasCandidateType` (search loops), `maybeMarkEmptyMapping` (effect mode) and ONE
 iteration of the loop of `addExternalMappings` (effect mode: which family an external address is filed under and
 whether it is filed at all).  Proved equal, for all arguments, to `IceModel.Rewrite.ruleMappingForLookup`,
-`shouldReplace`, `hasCandidateType`, the empty-mapping branch of `catchAllMap` / the condition of `pinMap`, and
+`shouldReplace`, `hasCandidateType`, the empty-mapping branch of `catchAllMap` (External list empty) / the condition of `pinMap`, and
 `targetFam` / the filter of `soleFor`.
 -/
 namespace IceTie.Rewrite2
@@ -140,16 +140,25 @@ def applyMark (effs : List Eff) (m : FamMap × FamMap) : FamMap × FamMap :=
     | Eff.set "ruleMapping.ipv6Mapping.catchAllSet" (Val.b v) => (acc.1, { acc.2 with catchAll := v })
     | _ => acc) m
 
-/-- a rule without `Local` to which no external address was added: the two mappings after `maybeMarkEmptyMapping` are the
-model's `catchAllMap` -/
-theorem maybeMarkEmptyMapping_model (a4 a6 : Bool) (cidr : Option CIDR) (exts : List IP)
-    (h4 : (soleFor a4 a6 cidr exts true).isEmpty = true) (h6 : (soleFor a4 a6 cidr exts false).isEmpty = true) :
+/-- a rule without `Local` whose External list is EMPTY (since /repo d6a4f83 the only case in which `newAddressRewriteMapper`
+calls `maybeMarkEmptyMapping`): the two mappings after `maybeMarkEmptyMapping` are the model's `catchAllMap` -/
+theorem maybeMarkEmptyMapping_model (a4 a6 : Bool) (cidr : Option CIDR) :
     applyMark (IceGen.maybeMarkEmptyMapping false false false a4 a6) ({}, {})
-      = (catchAllMap a4 a6 cidr exts true, catchAllMap a4 a6 cidr exts false) := by
+      = (catchAllMap a4 a6 cidr [] true, catchAllMap a4 a6 cidr [] false) := by
   rw [maybeMarkEmptyMapping_tie]
   unfold catchAllMap
-  simp only [h4, h6, Bool.and_self, if_true]
+  simp only [List.isEmpty_nil, if_true]
   cases a4 <;> cases a6 <;> rfl
+
+/-- a rule without `Local` that names externals of which none was added (all skipped by the family filter): the call is
+skipped, the untouched mappings are the model's `catchAllMap` (no mapping for either family) -/
+theorem unmarked_model (a4 a6 : Bool) (cidr : Option CIDR) (exts : List IP) (hne : exts ≠ [])
+    (h4 : (soleFor a4 a6 cidr exts true).isEmpty = true) (h6 : (soleFor a4 a6 cidr exts false).isEmpty = true) :
+    (({}, {}) : FamMap × FamMap) = (catchAllMap a4 a6 cidr exts true, catchAllMap a4 a6 cidr exts false) := by
+  have he : exts.isEmpty = false := by cases exts; exact absurd rfl hne; rfl
+  unfold catchAllMap
+  rw [List.isEmpty_iff.mp h4, List.isEmpty_iff.mp h6]
+  simp [he]
 
 /-- a rule pinned by `Local = l`: the empty entry is made iff the model's `pinMap` is non-trivial for the local family -/
 theorem maybeMarkEmptyMapping_pin (a4 a6 : Bool) (l : IP) :
